@@ -199,7 +199,13 @@ namespace occa {
           m = *it;
           const dim_t mlo = m->offset;
           const dim_t mhi = m->offset + m->size;
-          if (mlo > hi) {
+          /*
+          Reservations whose aligned ranges overlap stay in one block:
+          together they account for their common aligned range only once
+          */
+          const dim_t alignedLo = (mlo / alignment) * alignment;
+          const dim_t alignedHi = ((hi + alignment - 1) / alignment) * alignment;
+          if (mlo > hi && alignedLo >= alignedHi) {
             /*
             If the start point of the next reservation is in a new block
             copy the last block to the new allocation
